@@ -307,7 +307,8 @@ namespace GeographicLib {
           tau1 = tau - tol;
           for (int l = 0; l < 2; ++l) {
             if (current.data.child[l] >= 0 &&
-                dst + current.data.upper[l] >= mindist) {
+                // (written to avoid overflow with integer dist_t)
+                current.data.upper[l] >= mindist - dst) {
               if (dst < current.data.lower[l]) {
                 d = current.data.lower[l] - dst;
                 if (tau1 >= d)
